@@ -8,7 +8,7 @@ import (
 func gen(r *h.Rand, tier string, emit func([]string)) {
 	n := 500
 	if tier == "thorough" {
-		n = 6000
+		n = 2500
 	}
 	for c := 0; c < n; c++ {
 		g := shardh.NewG(r)
